@@ -102,7 +102,8 @@ fn extract_class(
     } else {
         None
     };
-    let mut body_name_stmts: HashMap<Core, (usize, Core)> = match body {
+    // position is a pair: members at the same place keep the order in which they were defined
+    let mut body_name_stmts: HashMap<Core, ((usize, usize), Core)> = match body {
         Some(Core::Block { statements }) => statements,
         Some(other) => vec![other],
         None => vec![],
@@ -112,16 +113,16 @@ fn extract_class(
     .map(|(i, stmt)| {
         // function two further to leave place for init
         let (pos, key) = match stmt {
-            Core::FunDef { id, .. } => (i + 2, Core::Id { lit: id.clone() }),
+            Core::FunDef { id, .. } => ((i + 2, i), Core::Id { lit: id.clone() }),
             Core::FunDefOp { op, .. } => (
-                i + 2,
+                (i + 2, i),
                 Core::Id {
                     lit: format!("{op}"),
                 },
             ),
-            Core::VarDef { var, .. } => (i, var.deref().clone()),
+            Core::VarDef { var, .. } => ((i, i), var.deref().clone()),
             _ => (
-                i,
+                (i, i),
                 Core::Id {
                     lit: String::from("@"),
                 },
@@ -147,9 +148,9 @@ fn extract_class(
             body_name_stmts
                 .values()
                 .filter(|(_, stmt)| matches!(stmt, Core::VarDef { .. }))
-                .map(|(pos, _)| *pos + 1)
+                .map(|((pos, _), _)| (*pos + 1, 0))
                 .max()
-                .unwrap_or(0) // otherwise always first
+                .unwrap_or((0, 0)) // otherwise always first
         };
 
         body_name_stmts.insert(init, (pos, new_init));
